@@ -26,8 +26,9 @@ EXPECTED_PROBES = ['refill-with-partial-token', 'token-longer-than-buffer', 'sta
 CLASSES = {'sanitizer', 'crash', 'ledger', 'leak', 'junk-dependence', 'reuse', 'hang'}
 
 
-def gen_scn(rng):
-    return scenario.gen_scenario(rng, want={'flavors': ['nr', 'nr', 'r', 'r', 'c99']})
+def gen_scn(rng, idx=0):
+    tables = scenario.TABLE_OPTS[idx % len(scenario.TABLE_OPTS)]
+    return scenario.gen_scenario(rng, want={'flavors': ['nr', 'nr', 'r', 'r', 'c99'], 'tables': tables})
 
 
 def gen_plan(rng, sc):
@@ -173,7 +174,7 @@ def work(ctx, idx):
     wr = WorkResult()
     cfg = TIERS[ctx.tier]
     rng = ctx.rng('scn', idx)
-    sc = gen_scn(rng)
+    sc = gen_scn(rng, idx)
     b = ctx.build(sc)
     if not b.ok:
         if b.stage == 'flex':
